@@ -70,6 +70,16 @@ func (e *c06ex) Exec(op string) string {
 			return "bad-op"
 		}
 		return okErr(e.c.Do(wd.Issuer, "burn", e.u(w[1]).Addr, w[2]))
+	case "setfee":
+		if !need(2) {
+			return "bad-op"
+		}
+		return okErr(e.c.Do(wd.FeeSet, "setFee", "VT", w[1], "0", "0"))
+	case "setfeeaddr":
+		if !need(2, 1) {
+			return "bad-op"
+		}
+		return okErr(e.c.Do(wd.FeeASet, "setFeeAddress", e.u(w[1]).Addr))
 	case "transfer":
 		if !need(4, 1, 2) {
 			return "bad-op"
@@ -203,6 +213,14 @@ func genC06(c *Cfg, emit func([]string)) {
 			bal[u] = new(big.Int).Set(b0)
 		}
 		h = append(h, "dump")
+		// half of the histories charge a transfer fee, collected by one of the accounts that also
+		// send transfers (so the fee leg can be a self-move)
+		switch c.Rng.Intn(4) {
+		case 0:
+			h = append(h, "setfeeaddr "+pick(users), "setfee "+pick([]string{"1000000", "50000000", "100000000"}))
+		case 1:
+			h = append(h, "setfee 10000000") // fee configured, address missing: every transfer must fail cleanly
+		}
 		nsw, nch, nlk := 0, 0, 0
 		n := 3 + c.Rng.Intn(maxSteps)
 		amount := func(u string) string {
@@ -233,7 +251,13 @@ func genC06(c *Cfg, emit func([]string)) {
 		}
 		for j := 0; j < n; j++ {
 			u, v := pick(users), pick(users)
-			switch c.Rng.Intn(11) {
+			switch c.Rng.Intn(12) {
+			case 11:
+				if c.Rng.Intn(2) == 0 {
+					h = append(h, "setfeeaddr "+u)
+				} else {
+					h = append(h, "setfee "+pick([]string{"0", "1", "2500000", "100000000", "100000001"}))
+				}
 			case 0:
 				h = append(h, "emit "+u+" "+amount(u))
 			case 1:
@@ -270,6 +294,6 @@ func genC06(c *Cfg, emit func([]string)) {
 		}
 		emit(h)
 	}
-	c.Rule = fmt.Sprintf("%d random histories of 3..%d operations through Invoke (emit, burn, transfer, forced transfer by the admin, external lock, swap begin / cancel / robot completion, cross-channel transfer from / cancel) over 3 accounts incl. self, amounts {0, 1, balance-1, balance, balance+1, -1, 2^64+1, random small} on funding {5, 1000, 2^128, 2^256}; after every step: all spendable and locked balances, the given-out counter, the escrow of open swaps and total_emission; non-trivial = at least one emission; distinct = sha256", nHist, maxSteps+2)
+	c.Rule = fmt.Sprintf("%d random histories of 3..%d operations through Invoke (emit, burn, transfer with and without a fee leg (fee collector among the senders), forced transfer by the admin, external lock, swap begin / cancel / robot completion, cross-channel transfer from / cancel) over 3 accounts incl. self, amounts {0, 1, balance-1, balance, balance+1, -1, 2^64+1, random small} on funding {5, 1000, 2^128, 2^256}; after every step: all spendable and locked balances, the given-out counter, the escrow of open swaps and total_emission; non-trivial = at least one emission; distinct = sha256", nHist, maxSteps+2)
 	c.Extra = map[string]any{"histories": nHist}
 }
